@@ -200,6 +200,9 @@ pub fn run(ctx: &Ctx) -> Report {
                 }
             }
         }
+        // signatures that would have been accepted for requests refused earlier in this run on this thread: none of
+        // them may turn up later either (nothing remembered from one validation may surface in another)
+        let mut history: Vec<Needle> = Vec::new();
         for (cname, base_case) in &cases {
             for (pname, prov) in &provider_kinds {
                 let mut case = base_case.clone();
@@ -269,9 +272,39 @@ pub fn run(ctx: &Ctx) -> Report {
                         }
                     }
                 }
+                // ... and the signature that would have been accepted under the key this provider handed out
+                let mut presented_now = String::new();
+                if let Ok(received) = case.wire.as_received() {
+                    let rcfg = case.cfg.to_ref();
+                    let o = refmodel::verify::validate(&received, &rcfg, &mut |a| case.prov.ref_answer(a));
+                    presented_now = o.presented_signature.clone().unwrap_or_default().to_lowercase();
+                    if !r.is_ok() {
+                        if let (Some(exp), Some(pres)) = (&o.expected_signature, &o.presented_signature) {
+                            if exp != pres && !pres.to_lowercase().contains(exp.as_str()) && !extra_needles.iter().any(|n| n.bytes == exp.as_bytes()) {
+                                extra_needles.push(Needle { what: "signature that would have been accepted under the provider's key".into(), bytes: exp.clone().into_bytes() });
+                            }
+                        }
+                    }
+                }
+                // what the client itself sent may be echoed: a value occurring anywhere in this request is not searched
+                let mut sent: Vec<u8> = case.wire.uri.to_lowercase().into_bytes();
+                for (_, v) in &case.wire.headers {
+                    sent.push(b'\n');
+                    sent.extend(v.to_ascii_lowercase());
+                }
+                sent.push(b'\n');
+                sent.extend(case.wire.body.to_ascii_lowercase());
+                let earlier: Vec<Needle> = history
+                    .iter()
+                    .filter(|n| {
+                        let t = String::from_utf8_lossy(&n.bytes).to_lowercase();
+                        !presented_now.contains(&t) && !contains(&sent, t.as_bytes()) && !extra_needles.iter().any(|e| e.bytes == n.bytes)
+                    })
+                    .map(|n| Needle { what: format!("{} (of an EARLIER refused request)", n.what), bytes: n.bytes.clone() })
+                    .collect();
                 n_observables += obs.len() as u64;
                 for o in &obs {
-                    for n in needles.iter().chain(extra_needles.iter()) {
+                    for n in needles.iter().chain(extra_needles.iter()).chain(earlier.iter()) {
                         st.transitions += 1;
                         if contains(&o.text, &n.bytes) {
                             st.violation(Violation {
@@ -283,6 +316,11 @@ pub fn run(ctx: &Ctx) -> Report {
                                 known: None,
                             });
                         }
+                    }
+                }
+                for n in extra_needles {
+                    if !history.iter().any(|h| h.bytes == n.bytes) {
+                        history.push(n);
                     }
                 }
                 index += 1;
@@ -323,7 +361,7 @@ pub fn run(ctx: &Ctx) -> Report {
     st.sample(0, 1, || json!({"observables": ["error Display/Debug", "key types Debug/Display", "provider request/response Debug", "CanonicalRequest/AuthParams/SigV4Authenticator Debug", "log records >= debug"], "needles_per_secret": n_needles / 3}));
     Report {
         stats: st,
-        rule: "3 secrets x 47 request classes (one per stage of the documented order on each carrier, valid, wrong signature, and presented signatures of 7 unusual shapes: truncated, empty, extended, doubled, upper-case, non-hex) x 5 provider outcomes (key, wrong key, ExpiredToken, io error, private error type); observables: the returned error's Display and Debug, the response Debug, Debug/Display (plain and alternate) of the five key types, GetSigningKeyRequest/Response, SigV4AuthenticatorResponse, CanonicalRequest, AuthParams, SigV4Authenticator, KeyTooLongError from five refused constructions (capacity one short, stray line ending, capacities 0/3/4/36, long input), and every log record at level >= Debug captured by the harness logger during validation and during key construction / refusal / derivation (Trace records counted, not searched); needles: secret, AWS4+secret, kDate, kRegion, kService, kSigning, each raw, hex, HEX, base64, base64url, as a decimal byte list and ascii-escaped, plus the correct signature of each refused request that did not present it. states = (class, provider, outcome)".into(),
+        rule: "3 secrets x 47 request classes (one per stage of the documented order on each carrier, valid, wrong signature, and presented signatures of 7 unusual shapes: truncated, empty, extended, doubled, upper-case, non-hex) x 5 provider outcomes (key, wrong key, ExpiredToken, io error, private error type); observables: the returned error's Display and Debug, the response Debug, Debug/Display (plain and alternate) of the five key types, GetSigningKeyRequest/Response, SigV4AuthenticatorResponse, CanonicalRequest, AuthParams, SigV4Authenticator, KeyTooLongError from five refused constructions (capacity one short, stray line ending, capacities 0/3/4/36, long input), and every log record at level >= Debug captured by the harness logger during validation and during key construction / refusal / derivation (Trace records counted, not searched); needles: secret, AWS4+secret, kDate, kRegion, kService, kSigning, each raw, hex, HEX, base64, base64url, as a decimal byte list and ascii-escaped, plus the correct signature of each refused request that did not present it (under the true key and under the key the provider handed out), searched in that request's observables and in those of every later validation of the run. states = (class, provider, outcome)".into(),
         bounds: json!({"secrets": 3, "classes": classes.len(), "provider_outcomes": 5}),
         exhaustive: true,
         assumptions: vec!["needles shorter than 16 bytes are not searched (accidental matches)".into()],
